@@ -13,8 +13,8 @@ from ..core import floats
 
 ID = "C09"
 THREADS = True       # part of the cases run concurrently in threads of one interpreter (the schedule dimension)
-MODULES = ["TWV.Tie.WeaverEffects", "TWV.Properties.C09", "TWV.Tie.WeaverStep"]
-TRANSLATORS = ["t6_effects", "t9_weaver"]
+MODULES = ["TWV.Tie.WeaverEffects", "TWV.Properties.C09", "TWV.Tie.WeaverStep", "TWV.Tie.WeaverIO"]
+TRANSLATORS = ["t6_effects", "t9_weaver", "t14_weaverio"]
 RULE = ("random programs of <= 10 operations over the whole public API (17 kinds: append, shift x/y, scale x/y, normalise x/y, "
         "repeat, truncate by value / index, recreate (6 strategies), integral_match, interpolate (4 methods, n or explicit "
         "grid, list or array), smooth, trend, noise, restore_original) that respect the documented preconditions, on series "
